@@ -89,7 +89,10 @@ PROPS = {
 }
 
 
-AUDIT_TEMPLATE = """import SSJ.Props.PID
+# properties whose theorems speak about model functions that stage 2 of the translator regenerates from the source
+GENLOOPS_PROPS = {'C01', 'C02', 'C03', 'C04', 'C06', 'C07', 'C08', 'C09', 'C10', 'C11', 'C13', 'C14'}
+
+AUDIT_TEMPLATE = """IMPORTS
 open Lean Elab Command in
 run_cmd liftCoreM do
   let env ← getEnv
@@ -137,7 +140,7 @@ def tree_hash():
                 p = os.path.join(root, f)
                 h.update(p.encode())
                 h.update(open(p, 'rb').read())
-    for f in ('tools/py2lean.py',):
+    for f in ('tools/py2lean.py', 'tools/py2lean2.py'):
         h.update(open(os.path.join(VERIF, f), 'rb').read())
     return h.hexdigest()[:24]
 
@@ -166,14 +169,19 @@ def forbidden_tokens():
     return hits
 
 
-def theorems_of(module_path):
-    """names of the property theorems stated in a Props file and its companion files Cxx_*.lean (same namespace)"""
+def prop_modules(pid):
+    """the property file SSJ/Props/Cxx.lean and its companion files Cxx_*.lean (same namespace), as module names"""
     import glob
-    names = []
-    for p in [module_path] + sorted(glob.glob(module_path[:-5] + '_*.lean')):
-        src = strip_comments(open(p).read())
-        names += re.findall(r'^theorem\s+([^\s:({\[]+)', src, flags=re.M)
-    return names
+    base = os.path.join(LEAN, 'SSJ', 'Props', pid)
+    files = ([base + '.lean'] if os.path.exists(base + '.lean') else []) + sorted(glob.glob(base + '_*.lean'))
+    return ['SSJ.Props.' + os.path.basename(f)[:-5] for f in files]
+
+
+def expected_theorems(pid):
+    """committed list of the property theorems that must exist (lean/expected_theorems.json): a theorem that disappears or
+    is renamed is a broken obligation, not a silent weakening.  Regenerate with tools/check.py --update-expected."""
+    p = os.path.join(LEAN, 'expected_theorems.json')
+    return json.load(open(p)).get(pid, []) if os.path.exists(p) else []
 
 
 def build_and_audit(pid, tier, log):
@@ -186,6 +194,16 @@ def build_and_audit(pid, tier, log):
         res['translator'] = {'error': out[-500:]}
     if rc != 0 or res['translator'].get('error'):
         res['broken'].append({'kind': 'translator', 'detail': res['translator'].get('error')})
+    # stage 2: the loop helpers (projection helpers, token ordering, OverlapFilter/PositionFilter.find_candidates,
+    # PositionIndex.build) are re-translated into Gen/Loops.lean; Proofs/GenLoops.lean proves each EQUAL to the hand model
+    rc2, out2 = sh([sys.executable, os.path.join(VERIF, 'tools', 'py2lean2.py'), REPO, os.path.join(LEAN, 'SSJ', 'Gen')])
+    try:
+        res['translator2'] = json.loads(out2.strip().splitlines()[-1])
+    except Exception:       # noqa: BLE001
+        res['translator2'] = {'error': out2[-500:]}
+    uses_loops = pid in GENLOOPS_PROPS
+    if (rc2 != 0 or res['translator2'].get('error')) and uses_loops:
+        res['broken'].append({'kind': 'translator-stage2', 'detail': str(res['translator2'].get('error'))[:600]})
     cache_dir = os.path.join(VERIF, '.cache')
     os.makedirs(cache_dir, exist_ok=True)
     key = tree_hash()
@@ -208,13 +226,21 @@ def build_and_audit(pid, tier, log):
         res['broken'] += c['broken_build']
         res['cached'] = True
         return res
+    if uses_loops and not (rc2 != 0 or res['translator2'].get('error')):
+        t0 = time.time()
+        rcg, outg = sh(['lake', 'build', 'SSJ.Proofs.GenLoops'], cwd=LEAN, timeout=1800)
+        log.append('lake build SSJ.Proofs.GenLoops rc=%d %.1fs' % (rcg, time.time() - t0))
+        if rcg != 0:
+            errs = [ln for ln in outg.splitlines() if 'error' in ln][:8]
+            broken_build.append({'kind': 'genloops-proof', 'detail': 'generated loop code is no longer provably equal to the hand model: ' + ('\n'.join(errs) or outg[-800:])})
     if not os.path.exists(props_file):
         if os.environ.get('SSJ_DEV_NO_PROPS') != '1':       # development switch only: never set by MANIFEST commands
             broken_build.append({'kind': 'no-props-file', 'detail': props_file})
     else:
         t0 = time.time()
-        rc, out = sh(['lake', 'build', 'SSJ.Props.' + pid], cwd=LEAN, timeout=3000)
-        log.append('lake build SSJ.Props.%s rc=%d %.1fs' % (pid, rc, time.time() - t0))
+        mods = prop_modules(pid)
+        rc, out = sh(['lake', 'build'] + mods, cwd=LEAN, timeout=3000)
+        log.append('lake build %s rc=%d %.1fs' % (' '.join(mods), rc, time.time() - t0))
         if rc != 0:
             errs = [ln for ln in out.splitlines() if 'error' in ln][:12]
             broken_build.append({'kind': 'proof-build', 'detail': '\n'.join(errs) or out[-1500:]})
@@ -222,7 +248,7 @@ def build_and_audit(pid, tier, log):
             res['build_ok'] = True
             audit = os.path.join(cache_dir, 'Audit_%s.lean' % pid)
             with open(audit, 'w') as fh:
-                fh.write(AUDIT_TEMPLATE.replace('PID', pid))
+                fh.write(AUDIT_TEMPLATE.replace('IMPORTS', '\n'.join('import ' + m for m in mods)).replace('PID', pid))
             rc, out = sh(['lake', 'env', 'lean', audit], cwd=LEAN, timeout=900)
             res['theorems'] = []
             for m in re.finditer(r'^THM (\S+) MOD (\S+) AXIOMS \[([^\]]*)\]', out, flags=re.M):
@@ -232,12 +258,15 @@ def build_and_audit(pid, tier, log):
                 broken_build.append({'kind': 'axiom-audit', 'detail': out[-800:]})
             if not res['theorems']:
                 broken_build.append({'kind': 'axiom-audit', 'detail': 'no theorem found in namespace SSJ.Props.' + pid})
+            missing = [t for t in expected_theorems(pid) if t not in res['theorems']]
+            if missing:
+                broken_build.append({'kind': 'missing-theorem', 'detail': 'expected property theorems no longer present: ' + ', '.join(missing[:8])})
             for full in res['theorems']:
                 if not set(res['axioms'][full]) <= ALLOWED_AXIOMS:
                     broken_build.append({'kind': 'axiom-audit', 'detail': '%s uses %s' % (full, res['axioms'][full])})
             if tier == 'thorough':
                 t0 = time.time()
-                rc, out = sh(['lake', 'env', 'leanchecker', 'SSJ.Props.' + pid], cwd=LEAN, timeout=3000)
+                rc, out = sh(['lake', 'env', 'leanchecker'] + mods, cwd=LEAN, timeout=3000)
                 log.append('leanchecker rc=%d %.1fs' % (rc, time.time() - t0))
                 res['leanchecker'] = rc == 0
                 if rc != 0:
@@ -247,7 +276,8 @@ def build_and_audit(pid, tier, log):
         broken_build.append({'kind': 'forbidden-token', 'detail': '; '.join(bad[:5])})
     res['broken'] += broken_build
     res['broken_build'] = broken_build
-    json.dump({'build_ok': res['build_ok'], 'axioms': res['axioms'], 'broken_build': broken_build, 'theorems': res['theorems']}, open(cache_file, 'w'))
+    if not any(x['kind'] in ('model-build',) for x in broken_build):
+        json.dump({'build_ok': res['build_ok'], 'axioms': res['axioms'], 'broken_build': broken_build, 'theorems': res['theorems']}, open(cache_file, 'w'))
     return res
 
 
@@ -396,6 +426,10 @@ def run_oracles(pid, tier, seed, stats, log, mult=1, known_hits=None):
             u = 7 if tier == 'quick' else 9
             g += O.oracle_suffix_exhaustive(u, stats)
             per['suffix_estimator_exhaustive'] = {'cases': stats.c.get('oracle.suffix_exhaustive.calls', 0), 'universe': u, 's': round(time.time() - t0, 1)}
+            t0 = time.time()
+            lab, labc = (5, 3) if tier == "quick" else (7, 5)
+            g += O.oracle_ed_filters_exhaustive(lab, labc, stats)
+            per['ed_filters_exhaustive'] = {'cases': stats.c.get('oracle.ed_filters_exhaustive.checks', 0), 'strings': 'all over {a,b} up to %d, {a,b,c} up to %d' % (lab, labc), 's': round(time.time() - t0, 1)}
         for x in g:
             x['oracle'] = 'exhaustive-grid'
             x['seed'] = seed
@@ -593,6 +627,15 @@ def main():
     args = sys.argv[1:]
     if '--replay' in args:
         sys.exit(do_replay(args[args.index('--replay') + 1]))
+    if '--update-expected' in args:
+        # maintenance only (never a MANIFEST command): record the property theorems that exist now
+        exp = {}
+        for pid in sorted(PROPS):
+            r = build_and_audit(pid, 'quick', [])
+            exp[pid] = sorted(r['theorems'])
+            print(pid, len(exp[pid]), 'theorems', [x['kind'] for x in r['broken']])
+        json.dump(exp, open(os.path.join(LEAN, 'expected_theorems.json'), 'w'), indent=1, sort_keys=True)
+        sys.exit(0)
     pid, tier = args[0], (args[1] if len(args) > 1 else os.environ.get('VERIF_TIER', 'quick'))
     if pid not in PROPS or tier not in ('quick', 'thorough'):
         print('usage: check.py <C01..C17> <quick|thorough> | --replay FILE')
@@ -684,7 +727,8 @@ def main():
             status = 1
         # ---------------- evidence
         n_th = len(b['theorems'])
-        discharged = n_th if b['build_ok'] and not any(x['kind'] in ('proof-build', 'axiom-audit', 'forbidden-token', 'leanchecker') for x in b['broken']) else 0
+        discharged = n_th if b['build_ok'] and not any(x['kind'] in ('proof-build', 'axiom-audit', 'forbidden-token', 'leanchecker', 'genloops-proof', 'translator-stage2', 'missing-theorem') for x in b['broken']) else 0
+        t2 = b.get('translator2') or {}
         distinct_nontrivial = sum(min(p['distinct'], p['nontrivial']) for p in per_suite.values())
         samples = [{'suite': n2, 'request': p['sample']} for n2, p in per_suite.items() if p['sample'] is not None][:3]
         samples += [{'theorem': th, 'axioms': b['axioms'].get(th)} for th in b['theorems'][:40]]
@@ -696,10 +740,14 @@ def main():
                 'trusted_base': ['Lean 4.33 kernel' + (' + leanchecker re-check' if tier == 'thorough' else ''),
                                  'axioms: propext, Classical.choice, Quot.sound only (audited per theorem this run)',
                                  'tools/py2lean.py + lean/SSJ/Py/{Val,F64}.lean (semantics of the translated subset; validated by suite gen/f64)',
+                                 'tools/py2lean2.py (loop helpers -> Gen/Loops.lean; idiom table of tools/translator_tests/NOTES.md; its output is proved equal to the hand model in Proofs/GenLoops.lean)',
                                  'hand-written model lean/SSJ/Model/*.lean (validated by the correspondence suites of this run)',
                                  'pandas / joblib / py_stringmatching / CPython float semantics are modelled, not verified (DESIGN §8)'],
                 'theorems': b['theorems'], 'axioms': b['axioms'], 'build_cached': b['cached'],
-                'programs': len((b['translator'] or {}).get('functions', [])), 'translated_functions': (b['translator'] or {}).get('functions', []),
+                'programs': len((b['translator'] or {}).get('functions', [])) + len(t2.get('functions', []) if pid in GENLOOPS_PROPS else []),
+                'translated_functions': (b['translator'] or {}).get('functions', []),
+                'translated_loop_functions': {'used_by_this_property': pid in GENLOOPS_PROPS, 'functions': t2.get('functions', []), 'error': t2.get('error'),
+                                              'equality_with_model': 'lean/SSJ/Proofs/GenLoops.lean (SSJ.Gen2.*_eq), rebuilt this run' if pid in GENLOOPS_PROPS else None},
                 'evaluations': total + sum(p['cases'] for p in per_oracle.values()),
                 'distinct_nontrivial': distinct_nontrivial,
                 'rule': 'correspondence cases are generated from one PRNG (VERIF_SEED); distinct = distinct request JSON; non-trivial = the real code '
@@ -710,13 +758,16 @@ def main():
                 'known_findings_hit': sorted(known_printed), 'broken': [x['kind'] for x in broken], 'log': log,
                 'exhaustive': False,
             },
-            'assumptions': ['theorem hypotheses: thresholds in [2^-20, 1] given as doubles, token-set sizes < 2^32, right table < 2^40 rows, set tokenizer returns duplicate-free lists',
+            'assumptions': ['theorem hypotheses (set measures): threshold the int 1 or a double in [2^-989, 1] (cosine: [2^-495, 1]) in the *_wide theorems, [2^-20, 1] in the original ones; token-set sizes < 2^32, right table < 2^40 rows, set tokenizer returns duplicate-free lists',
                             'joblib returns results in job order and workers share nothing (quick tier runs the chunked path in-process)',
                             'join columns hold strings or missing values only'],
             'wall_s': round(wall, 1), 'violations': len(real_viol) + (1 if (broken and not real_viol) else 0),
         }
-        os.makedirs(os.path.join(VERIF, 'evidence'), exist_ok=True)
-        json.dump(ev, open(os.path.join(VERIF, 'evidence', pid + '.json'), 'w'), indent=1, default=str, ensure_ascii=False)
+        # SSJ_EVIDENCE_DIR: only set by tools/run_seeded_all.py / run_against_seeded.sh, so that runs against a deliberately
+        # broken tree do not overwrite the evidence of /repo itself
+        ev_dir = os.environ.get('SSJ_EVIDENCE_DIR') or os.path.join(VERIF, 'evidence')
+        os.makedirs(ev_dir, exist_ok=True)
+        json.dump(ev, open(os.path.join(ev_dir, pid + '.json'), 'w'), indent=1, default=str, ensure_ascii=False)
         if status == 0:
             print('OK property=%s tier=%s theorems=%d/%d correspondence=%d cases oracle=%d cases wall=%.0fs' %
                   (pid, tier, discharged, n_th, total, sum(p['cases'] for p in per_oracle.values()), wall))
